@@ -67,6 +67,15 @@ def universe(key, tier):
                     if other == "init":
                         continue
             out.append((level, cid))
+    if key == "cerm":
+        # three conditional effects on one action (the variants are the powerset of them):
+        # all triples of conditional effects on a1's three effect slots
+        from itertools import product as _prod
+
+        cond_raw = (7, 8, 9, 13, 18)
+        slots3 = ("a1.eff1", "a1.eff2", "a1.eff3")
+        for combo in _prod(cond_raw, repeat=3):
+            out.append((3, tuple((sl, uprob.raw_eff_choice(sl, r)) for sl, r in zip(slots3, combo))))
     if key == "tcrm":
         # monitors are reset/advanced by the interplay of an initial value, one effect and the
         # constraint: all core triples (effect slot, init, traj)
